@@ -25,8 +25,18 @@ func (m *Message) SkipClassAdRaw(ctx context.Context) error {
 		if m.Finished() {
 			return fmt.Errorf("message ended after %d of %d expressions", i, numExprs)
 		}
-		if err := m.SkipString(ctx); err != nil {
+		isMarker, err := m.skipStringIsMarker(ctx)
+		if err != nil {
 			return fmt.Errorf("failed to skip expression %d (expected %d): %w", i, numExprs, err)
+		}
+		// A private attribute is SecretMarker followed by the real "Attr = Value" as a
+		// put_secret field: two wire items counted as ONE expression (see
+		// GetClassAdRawBody). Consume the secret too, in the crypto state the sender
+		// used for it, so the three receivers stay on the same bytes.
+		if isMarker {
+			if err := m.skipSecretString(ctx); err != nil {
+				return fmt.Errorf("failed to skip secret expression %d (expected %d): %w", i, numExprs, err)
+			}
 		}
 	}
 	if err := m.SkipString(ctx); err != nil {
@@ -36,6 +46,65 @@ func (m *Message) SkipClassAdRaw(ctx context.Context) error {
 		return fmt.Errorf("failed to skip TargetType: %w", err)
 	}
 	return nil
+}
+
+// skipSecretString is the skipping counterpart of getSecretString.
+func (m *Message) skipSecretString(ctx context.Context) error {
+	if sc, ok := m.stream.(secretCrypto); ok {
+		sc.PrepareCryptoForSecret()
+		defer sc.RestoreCryptoAfterSecret()
+	}
+	return m.SkipString(ctx)
+}
+
+// skipStringIsMarker is SkipString that also reports whether the string it
+// discarded is SecretMarker (as GetString would have returned it). It still
+// allocates nothing: a plaintext string is compared byte by byte as it is
+// skipped, an encrypted one is looked at only when its length prefix says it
+// could be the marker.
+func (m *Message) skipStringIsMarker(ctx context.Context) (bool, error) {
+	if m.stream.IsEncrypted() {
+		length, err := m.GetInt32(ctx)
+		if err != nil {
+			return false, err
+		}
+		n := int(length)
+		if n <= 0 || n > len(SecretMarker)+1 {
+			return false, m.discard(ctx, n)
+		}
+		if err := m.ensureData(ctx, n); err != nil {
+			return false, err
+		}
+		data := m.buffer.Next(n)
+		if data[0] == BinNullChar {
+			return false, nil // NULL string
+		}
+		if data[len(data)-1] == 0 {
+			data = data[:len(data)-1]
+		}
+		return string(data) == SecretMarker, nil
+	}
+	matched := 0 // bytes of SecretMarker matched so far, -1 once the string differs
+	for {
+		if err := m.ensureData(ctx, 1); err != nil {
+			if err == io.EOF {
+				return matched == len(SecretMarker), nil // end of message: treat as terminated
+			}
+			return false, err
+		}
+		b, err := m.buffer.ReadByte()
+		if err != nil {
+			return false, err
+		}
+		if b == 0 {
+			return matched == len(SecretMarker), nil // null terminator
+		}
+		if matched >= 0 && matched < len(SecretMarker) && b == SecretMarker[matched] {
+			matched++
+		} else {
+			matched = -1
+		}
+	}
 }
 
 // SkipString reads and discards one CEDAR string, matching GetString's framing
